@@ -679,6 +679,76 @@ theorem proxy_source_unbound_iff (attrOf : Nat → Option Nat) (falsy : Nat → 
     | unbound => simp
     | attrError => simp
 
+/-- **Mutating through a proxy.** `proxy.attr = f` in context `c` writes the attribute of exactly the
+object the proxy resolves to in `c` - no binding of any context changes (the world of cells is not
+even an output of `mutateVia`), no other object's attribute changes - and writes nothing where the
+proxy is unbound or `get_name` fails. -/
+theorem mutation_through_proxy_targets_bound_object (attrOf : Nat → Option Nat) (falsy : Nat → Bool)
+    (lw : LWorld) (fs : Fields) (c : Nat) (p : PSrc) (f : Nat) :
+    match resolveP attrOf falsy lw c p with
+    | .obj x =>
+      (mutateVia attrOf falsy lw fs c p f).2 = .obj x ∧
+      fieldOf (mutateVia attrOf falsy lw fs c p f).1 x = f ∧
+      ∀ y, y ≠ x → fieldOf (mutateVia attrOf falsy lw fs c p f).1 y = fieldOf fs y
+    | r => mutateVia attrOf falsy lw fs c p f = (fs, r) := by
+  unfold mutateVia
+  cases h : resolveP attrOf falsy lw c p with
+  | obj x =>
+    refine ⟨rfl, by simp [fieldOf], ?_⟩
+    intro y hy
+    have : (x == y) = false := by simpa using fun e => hy e.symm
+    simp [fieldOf, this]
+  | unbound => rfl
+  | attrError => rfl
+
+/-- ... so what any context `c'` reads through any proxy afterwards is the new value exactly when its
+proxy resolves - in `c'` - to the same object, and the old value otherwise. -/
+theorem read_after_mutation_through_proxy (attrOf : Nat → Option Nat) (falsy : Nat → Bool)
+    (lw : LWorld) (fs : Fields) (c : Nat) (p : PSrc) (f : Nat) (c' : Nat) (p' : PSrc) :
+    readVia attrOf falsy lw (mutateVia attrOf falsy lw fs c p f).1 c' p' =
+      match resolveP attrOf falsy lw c p, resolveP attrOf falsy lw c' p' with
+      | .obj x, .obj y => some (if y = x then f else fieldOf fs y)
+      | _, .obj y => some (fieldOf fs y)
+      | _, _ => none := by
+  have hm := mutation_through_proxy_targets_bound_object attrOf falsy lw fs c p f
+  unfold readVia
+  cases h : resolveP attrOf falsy lw c p with
+  | obj x =>
+    rw [h] at hm
+    cases h' : resolveP attrOf falsy lw c' p' with
+    | obj y =>
+      by_cases hyx : y = x
+      · subst hyx; simp [hm.2.1]
+      · simp [hyx, hm.2.2 y hyx]
+    | unbound => rfl
+    | attrError => rfl
+  | unbound =>
+    rw [h] at hm
+    simp only at hm
+    rw [hm]
+    cases resolveP attrOf falsy lw c' p' <;> rfl
+  | attrError =>
+    rw [h] at hm
+    simp only at hm
+    rw [hm]
+    cases resolveP attrOf falsy lw c' p' <;> rfl
+
+/-- **Scope of the isolation: bindings, not the objects bound.** `Local` / `LocalStack` copy the
+mapping / list, never the values: a child context inherits REFERENCES to the parent's payload
+objects, so an attribute written through the parent's proxy is read by the child through the same
+object (this is also what `contextvars` itself does). Once the child has bound its own object, the
+parent's writes no longer reach what the child reads. -/
+theorem payload_objects_shared_by_reference :
+    let attrOf : Nat → Option Nat := fun _ => none
+    let falsy : Nat → Bool := fun _ => false
+    let lw := lrun LWorld.init [.create .ownFresh 0 true, .call 0 0 stackPush ⟨0, 8⟩, .copyCtx 0]
+    let fs := (mutateVia attrOf falsy lw [] 0 (.stackTop 0 false) 5).1
+    readVia attrOf falsy lw fs 1 (.stackTop 0 false) = some 5 ∧
+    (let lw2 := lstep lw (.call 1 0 stackPush ⟨0, 16⟩)
+     let fs2 := (mutateVia attrOf falsy lw2 [] 0 (.stackTop 0 false) 5).1
+     readVia attrOf falsy lw2 fs2 1 (.stackTop 0 false) = some 0 ∧
+     readVia attrOf falsy lw2 fs2 0 (.stackTop 0 false) = some 5) := by decide
+
 /-- a bound falsy object on the stack (token 2, declared falsy) is still what the proxy yields -/
 example : proxyViewSrc (fun x => x == 2) (run World.init [.call 0 1 stackPush ⟨0, 2⟩]) 0 (.top 1)
     = { obj := some 2, truthy := false, fallbackRepr := false } := by decide
